@@ -9,13 +9,13 @@ NOTE = ("Trusted base: the SSA interpreter in /verif/engine (validated on every 
         "errors.Is/As, checksum fold summaries, model Source/Sink). Bounds are stated in evidence.coverage.bounds; nothing is claimed outside them.")
 CLAIMED = {
  "C01": ("For every variant (ICMP/UDP v4+v6, TCP SYN default/Paris, SACK strict/relaxed) the real SendProbe calls followed by one real ReceiveProbe over an arbitrary packet of the listed lengths: every accepted hop is proved to be backed by a genuine reply to a probe that was sent (oracle written against the bytes that really went out), for all configurations inside the window bound. Bounded model checking: holds for every value inside the bounds, says nothing outside.", "5 C01"),
- "C02": ("Every reply form of the catalogue, with all free fields symbolic, is proved to be accepted as the hop of the probe it answers by the real matchers, for every variant, every TTL position and every sequence/ID base inside the window bound.", "5 C02"),
+ "C02": ("Every reply form of the catalogue, with all free fields symbolic, is proved to be accepted as the hop of the probe it answers by the real matchers, for every variant, every TTL position and every sequence/ID base inside the window bound; and the capture filter each entry point installs is proved exact and proved to accept every frame its matcher accepts (the C12 jobs, evaluated under C02 too).", "5 C02"),
  "C04": ("Same exploration as C01; the destination flag of every accepted hop is proved equivalent to the protocol's proof-of-arrival form coming from the target address.", "5 C04"),
  "C09": ("Same exploration as C01 over arbitrary bytes: every outcome of ReceiveProbe is proved to be a hop, a retryable error, or the one allowed SACK abort; no Go panic is reachable inside the bounds. A rejected packet delivered before a genuine reply does not change that reply's recognition. Frame level: arbitrary Ethernet frames of every captured length through the real afPacketSource.Read / stripEthernetHeader / ReadAndParse behind the real cBPF program of each filter end in a parsed packet or a retryable error.", "5 C09"),
 }
 CLAIMED.update({
  "C03": ("Parts (a) and (b): the real TracerouteParallel/TracerouteSerial over a model driver for every schedule and bounded reply sequence produce a list of the stated shape; and the real clipResults and ToHops over an arbitrary slot table satisfying the engines' representation invariant, every occupancy/destination pattern for MaxTTL <= 5/8 and windows at 4, 128, 255: list shape (consecutive TTLs, ends at the lowest destination TTL, never empty, only the last entry is the destination) is proved. ", "5 C03"),
- "C05": ("The real drivers on a virtual clock: for every accepted hop in the C01 exploration the reported RTT is proved equal to (clock at the accepting ReceiveProbe) - (clock when that same TTL's probe was handed to the sink), hence non-negative, for arbitrary gaps between sends and an arbitrary flight time; the e2e probe returns the destination hop's RTT or 0; the ms conversion is zero at zero and positive on positive durations < 2^36 ns.", "5 C05"),
+ "C05": ("The real drivers on a virtual clock: for every accepted hop in the C01 exploration the reported RTT is proved equal to (clock at the accepting ReceiveProbe) - (clock when that same TTL's probe was handed to the sink), hence non-negative, for arbitrary gaps between sends and an arbitrary flight time, and the hop is credited to the probe the reply answers (attribution obligation evaluated here too); the e2e probe returns the destination hop's RTT or 0; the ms conversion is zero at zero and positive on positive durations < 2^36 ns.", "5 C05"),
  "C06": ("Parts (a),(b): for every variant the bytes the real SendProbe hands to the sink are proved well formed (version, lengths, TTL/hop limit = probed TTL, protocol, run-constant endpoints, IPv4 header and L4 checksums, flags, identifier formula) and written to the target; the identifiers of two probes of a run differ - for every TTL position and every identifier base. Part (c): the real engines over a model driver send at most one probe per TTL in increasing order, spaced by SendDelay on the virtual clock, and at most one after a destination reply was accepted. Part (d): the endpoints each protocol entry point reports equal those carried by every probe it emitted.", "5 C06"),
  "C11": ("Part (a): from any 32-bit allocator state three consecutive AllocPacketID ranges of arbitrary sizes are proved pairwise disjoint modulo 2^16 and consecutive echo identifiers distinct. Part (b): for each protocol two runs to the same target with the identities the code relies on (echo ids, local ports, sequence windows): every catalogue reply to a probe of one run is proved to be rejected by the other run's real matcher.", "5 C11"),
  "C16": ("The real Results.Normalize on symbolic documents: reachable iff address, hop-count statistics ordered and within run lengths, e2e statistics (sent/received/loss exact; min <= avg <= max; 0 <= jitter <= max-min) decided in IEEE-754 semantics by cvc5 for n=2 (quick) / 3 (thorough) samples; identifier path uuid->base64 injective (per 3-byte group). JSON round trip is outside (reflection).", "5 C16"),
@@ -25,7 +25,7 @@ CLAIMED.update({
 })
 CLAIMED.update({
  "C07": ("The real TracerouteParallel (real errgroup, context plumbing on a context model) over a model driver, explored for every interleaving of its goroutines at scheduling points and every bounded reply sequence: the returned list is proved equal to the reference fold (first reply per TTL, destination overrides, clipped at the lowest destination) of the replies the receiver accepted, and the receiver keeps polling until the deadline as long as a later reply could still change the result.", "5 C07"),
- "C08": ("Parts (a),(b): same exploration on a virtual discrete-event clock: the parallel engine returns within (listening timeout + one send delay per probe, computed from the parameters) + one poll and never starts a receive at or after its deadline; the serial engine within the per-TTL sum; a cancellation at any instant is reported with ctx.Err() within one poll + one send delay. ReadHandshake under a flood of unrelated packets returns within its 500 ms window. DNS/HTTP deadlines are checked in C18's jobs; the dial timeout is not covered.", "5 C08"),
+ "C08": ("Parts (a),(b): same exploration on a virtual discrete-event clock: the parallel engine returns within (listening timeout + one send delay per probe, computed from the parameters) + one poll and never starts a receive at or after its deadline; the serial engine within the per-TTL sum; a cancellation at any instant is reported with ctx.Err() within one poll + one send delay. ReadHandshake under a flood of unrelated packets returns within its 500 ms window; bursts of unrelated packets do not extend the engines' bounds; a reverse-DNS batch with stalling resolvers takes one lookup timeout and every DNS/HTTP call carries a deadline (C18's jobs evaluated here too); the dial timeout is not covered.", "5 C08"),
 })
 CLAIMED.update({
  "C15": ("The real runTracerouteMulti with the run function (package variable) replaced by a model that succeeds or fails per call, explored over completion orders of the concurrent runs/probes (bounded preemptions): success exactly when everything succeeded, with exactly the requested numbers of runs and RTT samples, none lost or duplicated (multiset equality), zeros for unanswered probes; on any failure no result and an error for which errors.Is holds for every individual failure; a failing public-IP fetcher changes neither case; no goroutine outlives the call.", "5 C15"),
